@@ -227,7 +227,7 @@ func renderEdit(toks []string) string {
 				sb.WriteString(" ")
 			}
 		}
-		sb.WriteString(strings.NewReplacer("U1", "\u00ea", "U4", "\xe9", "U5", "\ufeff").Replace(t)) // (tokens aU1 / TU1 / aU4: names with a non-ASCII letter)
+		sb.WriteString(strings.NewReplacer("U1", "\u00ea", "U4", "\xe9", "U5", "\ufeff", "U6", "\x0b", "U7", "\x0c", "U8", "\x85", "U9", "\xa0").Replace(t)) // (tokens aU1 / TU1 / aU4: names with a non-ASCII letter)
 	}
 	return sb.String()
 }
